@@ -105,7 +105,9 @@ Begin ==
     /\ LET u == Head(todo) IN
        /\ cur' = u
        /\ ran' = Append(ran, [u |-> u, at |-> now])
-       /\ pending' = IF side.unit = u /\ side.what = "leave"
+       \* "leave": a delayed call far in the future; "chain0": a call due now which, when it runs (during
+       \* the run or during the spinner's post-run reactor iterations), schedules another far-future call
+       /\ pending' = IF side.unit = u /\ side.what \in {"leave", "chain0"}
                      THEN pending \cup {[at |-> now + FarFuture, what |-> "junk"]} ELSE pending
        /\ logged' = IF side.unit = u /\ side.what = "logerr" THEN logged + 1 ELSE logged
        /\ unhandled' = IF side.unit = u /\ side.what = "drop" THEN unhandled + 1 ELSE unhandled
